@@ -17,10 +17,15 @@ TReqCase  == Is("ReqCase") /\ UNCHANGED hv /\ H!ReqOKUnder(E.mux, E.canon, E.in,
                /\ Step
 TRespCase == Is("RespCase") /\ UNCHANGED hv /\ H!RespOK(E.in, E.out)
                /\ Step
+\* an exchange that is cut short (the agent's call to the proxy runs into its time-out while the backend is still
+\* producing the body): whatever reaches the client without any error must be the backend's response - a partial
+\* body must not be dressed up as a complete one
+TCutCase  == Is("CutCase") /\ UNCHANGED hv /\ (E.clean => H!RespOK(E.in, E.out))
+               /\ Step
 TIdCase   == Is("IdCase") /\ UNCHANGED hv
              /\ H!IdentityOK(E.fwd, E.asserted, E.saw_user) /\ H!CredsOK(E.strip, E.saw_auth)
              /\ (~E.fwd => E.saw_user = E.sent_user) /\ (~E.strip => E.saw_auth = E.sent_auth)
                /\ Step
-TNext == TReset \/ TReqCase \/ TRespCase \/ TIdCase
+TNext == TReset \/ TReqCase \/ TRespCase \/ TCutCase \/ TIdCase
 TSpec == TInit /\ [][TNext]_<<hv, l>>
 =============================================================================
